@@ -7,15 +7,16 @@
 //	(2) every "fields" alteration of valid seed inputs: every length / count / type field set to
 //	    every boundary value (width permitting), combined with every truncation,
 //
-// and evaluates on every input: no panic, the call returns (20 s guard, re-run 5x before a
-// hang is reported), the bytes allocated during the call stay below 64 MiB + 16 x input size,
-// the process survives (no unrecoverable runtime fatal error).
+// and evaluates on every input: no panic, the call returns (guard: 20 s of CPU time, or 20 s
+// blocked; re-run 5x in fresh workers before a hang is reported), the bytes allocated during
+// the call stay below 64 MiB + 16 x input size, the process survives (no unrecoverable
+// runtime fatal error such as out of memory or stack overflow).
 //
 // Architecture: the parent only orchestrates. Every decoder call happens in a single-threaded
 // worker process (re-exec of os.Args[0]) that runs under RLIMIT_AS, publishes (space, input
 // index, decoder) in a shared memory cell before every call - so that a death of the worker
 // (out of memory, stack overflow, ...) is attributed to the exact input - and measures the
-// runtime.MemStats.TotalAlloc delta around the calls. The N = GOMAXPROCS workers evaluate the
+// cumulative heap allocation counter (runtime/metrics, = MemStats.TotalAlloc) around the calls. The N = GOMAXPROCS workers evaluate the
 // residue classes i mod N of every space (par.Do runs the N shards).
 //
 // Decoders are driven the way their real callers drive them: packet-body parsers only see
@@ -74,18 +75,18 @@ type Space struct {
 }
 
 const (
-	allocBase     = 64 << 20 // allocation budget: 64 MiB + 16 x input size
-	allocPerByte  = 16
-	hangGuard     = 20 * time.Second
-	hangReruns    = 5
-	singleKill    = 15 * time.Minute // last resort for a single-input worker; the verdict comes from its watchdog
-	rlimitHeadroom = 448 << 20 // address space a worker may add to its start-up footprint
-	flushEvery    = 2048
-	allocBatch    = 64
-	batchSuspect  = 8 << 20 // a batch that allocated more than this is re-measured call by call
-	maxRestarts   = 400
-	progressBytes = 32
-	gcEvery       = 24 << 20
+	allocBase      = 64 << 20 // allocation budget: 64 MiB + 16 x input size
+	allocPerByte   = 16
+	hangGuard      = 20 * time.Second
+	hangReruns     = 5
+	singleKill     = 15 * time.Minute // last resort for a single-input worker; the verdict comes from its watchdog
+	rlimitHeadroom = 448 << 20        // address space a worker may add to its start-up footprint
+	flushEvery     = 2048
+	allocBatch     = 64
+	batchSuspect   = 8 << 20 // a batch that allocated more than this is re-measured call by call
+	maxRestarts    = 400
+	progressBytes  = 32
+	gcEvery        = 24 << 20
 )
 
 type outcome struct {
@@ -540,6 +541,7 @@ func workerMain(env *Env, spec specT) {
 						o := callMeasured(d, p.in)
 						callStart.Store(0)
 						outs[bi][di].Alloc = o.Alloc
+						maybeGC(totalAlloc())
 					}
 				}
 			}
@@ -1019,11 +1021,12 @@ func main() {
 	r.Set("bounds", env.boundInfo)
 	r.Set("allocation_budget", "64 MiB + 16 x input size (runtime.MemStats.TotalAlloc delta, single-threaded worker)")
 	r.Set("worker_address_space_headroom_mib", rlimitHeadroom>>20)
-	r.Set("hang_guard", "20s, 5 re-runs")
+	r.Set("hang_guard", "a call is a hang candidate after 20 s of CPU time or 20 s blocked without CPU use; reported when 5 of 5 re-runs in fresh workers agree")
 	r.Rule("state = one input (a token sequence over the decoder family's alphabet up to the length bound, or a valid seed with one length/count/type field set to one boundary value and cut at one position); transition = one decoder entry point called on that input in a single-threaded worker process; distinct_nontrivial counts distinct (decoder, outcome class, normalised error text | panic site) tuples; different token sequences that spell the same bytes are counted as different inputs")
 	r.Assume(
 		"Themis is replaced by the pure-Go stand-in /verif/shim/gothemis",
-		"'allocate without bound' is decided for the enumerated inputs only, with the numeric budget 64 MiB + 16 x input size; 'loops' with a 20 s guard",
+		"'allocate without bound' is decided for the enumerated inputs only, with the numeric budget 64 MiB + 16 x input size (an allocation that does not fit into the worker's address-space headroom kills the worker and is reported as alloc too); 'loops' with a 20 s CPU-time / blocked guard",
+		"PostgreSQL packet alphabets consist of whole packets (well-formed or damaged in one way): a reader that trusts a 32-bit length dies on almost every unaligned byte string, one worker per input; byte-level damage of every length field is enumerated by the fields spaces",
 		"values outside the alphabets and seeds are not explored (small-scope argument)",
 		"PostgreSQL/MySQL sessions run both pumps of the real proxy on scripted connections, one pump at a time (no pump races); TLS switching is not configured",
 		"censor YAML tokens that make the loader create files (parse_errors_log, query_capture) are left out of the alphabet",
